@@ -168,6 +168,7 @@ package cbor
 //@   props C12 C10(sweep)
 //@   sweep bounds,panic,make,nilmem
 //@   requires @len8 len(additional) <= 8
+//@   callassert SetMapIndex#1: @comparable TypeComparable(u(actualKeyType))
 
 //@ func cbor.Decoder.decodeSimple
 //@   props C12 C10(sweep)
@@ -190,11 +191,17 @@ package cbor
 //@   props C12 C10(sweep)
 //@   sweep bounds,panic,make,nilmem
 //@   makelimit 100000
+//@   callassert LimitReader#1: @declared arg1 == int64(n)
+//@   callassert Decode#1: @confined Limited(u(arg0.r))
+//@   callassert ReadFull#1: @confined Limited(u(arg0))
 
+// the wrapped item is decoded from a reader confined to the declared length
 //@ func cbor.Bstr.UnmarshalCBORStream
 //@   props C12 C10(sweep)
 //@   sweep bounds,panic,make,nilmem
 //@   makelimit 100000
+//@   callassert LimitReader#1: @declared arg1 == int64(n)
+//@   callassert Decode#1: @confined Limited(u(arg0.r))
 
 //@ func cbor.X509Certificate.UnmarshalCBORStream
 //@   props C12 C10(sweep)
@@ -217,3 +224,18 @@ package cbor
 //@ func cbor.ArrayShift
 //@   props C20 C12(sweep) C10(sweep)
 //@   sweep bounds,panic,make,nilmem
+
+// ---- canonical map encoding (C11): keys are emitted in the order given by the
+// sort function over the MARSHALED keys; by default that is BytewiseLexicalSort.
+//@ func cbor.Encoder.encodeMap
+//@   props C11
+//@   sweep make,nilmem
+//@   requires @length length >= 0
+//@   callsites Slice 1
+//@   callsites Encode 3
+//@   callassert Slice#1: @sorted u(unwrap(arg0)) == u(indices)
+//@   callassert Slice#1: @default e.MapKeySort == nil ==> fnis(arg1, "cbor.BytewiseLexicalSort$1")
+//@   callassert Slice#1: @defaultidx e.MapKeySort == nil ==> u(*binding(arg1, "indices")) == u(indices)
+//@   callassert Slice#1: @defaultkeys e.MapKeySort == nil ==> u(*binding(arg1, "keys")) == u(marshaledKeys)
+//@   callassert Encode#2: @keybytes u(arg0) == u(e) && bytes(unwrap(arg1)) == bytes(marshaledKeys[i])
+//@   callassert Encode#3: @out u(arg0) == u(e)
